@@ -1,6 +1,7 @@
 """C02 - defaults for undocumented APIs: transfer defaults (maintransformer)."""
 from givc.contracts import contract, inline
 from . import schema   # noqa
+from . import c00_index  # noqa
 from giscanner import ast
 
 MT = 'giscanner.maintransformer.MainTransformer.'
@@ -160,3 +161,103 @@ contract(MT + '_get_transfer_default',
                                               "spec_return_default(self, parent, node) != 'CTOR', "
                                               "result == spec_return_default(self, parent, node))",
          })
+
+
+# ------------------------------------------------------------------------------------------------
+# A trailing GError** parameter is removed and the callable marked as throwing
+contract(MT + '_pass3_callable_throws', params={'self': 'MainTransformer', 'node': 'Callable'}, props=('C02',),
+         ghost={'J': 'int'},
+         let={'n0': 'len(node.parameters)',
+              'trailing_gerror': "len(node.parameters) > 0 and node.parameters[-1].type.ctype == 'GError**'"},
+         modifies=['node._parameters[]', 'node.throws'],
+         ensures={
+             'C02.throws.trailing_gerror_removed': 'implies(trailing_gerror, len(node.parameters) == n0 - 1 and node.throws is True)',
+             'C02.throws.otherwise_untouched': 'implies(not trailing_gerror, len(node.parameters) == n0 and node.throws == old(node.throws))',
+             'C02.throws.other_parameters_kept': 'implies(0 <= J and J < len(node.parameters), node.parameters[J] is old(node.parameters[J]))',
+         })
+
+
+# ------------------------------------------------------------------------------------------------
+# callback / user_data / destroy-notify groups and well-known callback types
+def target_of(self, p):
+    return self._transformer.resolve_aliases(self._transformer.lookup_typenode(p.type))
+
+
+def is_callback(self, p):
+    return isinstance(target_of(self, p), ast.Callback)
+
+
+def is_destroy(self, p):
+    return is_callback(self, p) and target_of(self, p).gi_name == 'GLib.DestroyNotify'
+
+
+def is_plain_callback(self, p):
+    return is_callback(self, p) and target_of(self, p).gi_name != 'GLib.DestroyNotify'
+
+
+def is_wellknown(self, p):
+    return is_callback(self, p) and target_of(self, p).gi_name in ('Gio.AsyncReadyCallback', 'GLib.DestroyNotify')
+
+
+def looks_like_user_data(p):
+    """an untyped pointer whose name ends in `data`"""
+    return p.type.is_equiv(ast.TYPE_ANY) and p.argname is not None and p.argname.endswith('data')
+
+
+PS = 'node.parameters'
+CB_FOLDS = {
+    # index of the callback the current parameter belongs to (-1: none yet), after the first k parameters
+    'CUR': {'type': 'int', 'init': '-1', 'step': '(I2 if is_plain_callback(self, %s[I2]) else ACC)' % PS},
+    # fields of the ghost-chosen parameter K after the first k parameters have been looked at
+    'DN': {'type': 'str?', 'init': '%s[K].destroy_name' % PS,
+           'step': "(%s[I2].argname if is_destroy(self, %s[I2]) and FOLD('CUR', I2) == K else ACC)" % (PS, PS)},
+    'SC': {'type': 'str?', 'init': '%s[K].scope' % PS,
+           'step': "('notified' if is_destroy(self, %s[I2]) and FOLD('CUR', I2) == K else ACC)" % PS},
+    'TR': {'type': 'str?', 'init': '%s[K].transfer' % PS,
+           'step': "('none' if is_destroy(self, %s[I2]) and FOLD('CUR', I2) == K else ACC)" % PS},
+    'CL': {'type': 'str?', 'init': '%s[K].closure_name' % PS,
+           'step': "(%s[I2].argname if not is_callback(self, %s[I2]) and FOLD('CUR', I2) == K and "
+                   "looks_like_user_data(%s[I2]) else ACC)" % (PS, PS, PS)},
+}
+NUL_FOLDS = {
+    'NUL': {'type': 'bool', 'init': '%s[K].nullable' % PS,
+            'step': "(True if %s[I3].closure_name is not None and node.get_parameter_index(%s[I3].closure_name) == K "
+                    "and not %s[K].not_nullable else ACC)" % (PS, PS, PS)},
+}
+INRANGE = '0 <= K and K < len(%s)' % PS
+contract(MT + '_pass3_callable_callbacks', params={'self': 'MainTransformer', 'node': 'Callable'}, props=('C02',),
+         ghost={'K': 'int'},
+         requires=['all_distinct(node.parameters)'],
+         modifies=['*.scope', '*.transfer', '*.destroy_name', '*.closure_name', '*.nullable'],
+         raises={'KeyError': 'True', 'ValueError': 'True', 'AssertionError': 'True'},
+         loops={
+             1: {'index': 'I1', 'modifies': ['*.scope', '*.transfer'],
+                 'var_types': {'param': 'Parameter', 'argnode': 'Node|Type?'},
+                 'invariant': [
+                     "implies(%s and K < I1 and is_wellknown(self, %s[K]), %s[K].scope == 'async' and %s[K].transfer == 'none')" % (INRANGE, PS, PS, PS),
+                     "implies(%s and (K >= I1 or not is_wellknown(self, %s[K])), %s[K].scope == old(%s[K].scope) and "
+                     "%s[K].transfer == old(%s[K].transfer))" % (INRANGE, PS, PS, PS, PS, PS)]},
+             2: {'index': 'I2', 'folds': CB_FOLDS, 'modifies': ['*.scope', '*.transfer', '*.destroy_name', '*.closure_name'],
+                 'var_types': {'param': 'Parameter', 'argnode': 'Node|Type?', 'callback_param': 'Parameter?', 'is_destroynotify': 'bool'},
+                 'invariant': [
+                     "-1 <= FOLD('CUR', I2) and FOLD('CUR', I2) < I2",
+                     "callback_param is (%s[FOLD('CUR', I2)] if FOLD('CUR', I2) >= 0 else None)" % PS,
+                     "implies(%s, %s[K].destroy_name == FOLD('DN', I2) and %s[K].scope == FOLD('SC', I2) and "
+                     "%s[K].transfer == FOLD('TR', I2) and %s[K].closure_name == FOLD('CL', I2))" % (INRANGE, PS, PS, PS, PS)]},
+             3: {'index': 'I3', 'folds': NUL_FOLDS, 'modifies': ['*.nullable'],
+                 'var_types': {'param': 'Parameter', 'closure_param': 'Parameter', 'idx': 'int'},
+                 'invariant': ["implies(%s, %s[K].nullable == FOLD('NUL', I3))" % (INRANGE, PS)]},
+         },
+         ensures={
+             'C02.callbacks.wellknown_types_get_async_scope_first':
+                 "implies(%s and not is_plain_callback(self, %s[K]) and FOLD('SC', 0) == FOLD('SC', len(%s)), "
+                 "%s[K].scope == ('async' if is_wellknown(self, %s[K]) else old(%s[K].scope)))" % (INRANGE, PS, PS, PS, PS, PS),
+             'C02.callbacks.destroy_scope_closure_are_the_group_folds':
+                 "implies(%s, %s[K].destroy_name == FOLD('DN', len(%s)) and %s[K].scope == FOLD('SC', len(%s)) and "
+                 "%s[K].transfer == FOLD('TR', len(%s)) and %s[K].closure_name == FOLD('CL', len(%s)))"
+                 % (INRANGE, PS, PS, PS, PS, PS, PS, PS, PS),
+             'C02.callbacks.user_data_is_nullable': "implies(%s, %s[K].nullable == FOLD('NUL', len(%s)))" % (INRANGE, PS, PS),
+         },
+         note='DN/SC/TR/CL: destroy name, scope, transfer and closure name of parameter K as a left fold over the parameter '
+              'list: a destroy notify sets destroy/notified/none on the most recent plain callback before it, an untyped '
+              '`...data` pointer sets its closure; NUL: a parameter named as a closure becomes nullable unless (not nullable)')
